@@ -14,6 +14,11 @@
 (*                    peer has closed.                                     *)
 (*   Close(e)         from then on every Write on e fails, and Read on e   *)
 (*                    fails once the bytes that had arrived are used up.   *)
+(*   CloseWrite(e)    half close: ends the stream LEAVING e (every later   *)
+(*                    Write on e fails; the peer's Read reports the end    *)
+(*                    only after everything written before it has been     *)
+(*                    delivered).  The other direction is untouched: the   *)
+(*                    peer goes on writing and e goes on reading.          *)
 (* TLC checks the consequences the statement names (per-writer order,      *)
 (* contiguous payloads, nothing written after Close) on all histories of   *)
 (* a small configuration; ConcConnTrace validates histories of real        *)
@@ -26,22 +31,24 @@ Peer(e) == CHOOSE x \in Ends : x # e
 VARIABLES stream,   \* stream[e]: sequence of [id, n] appended by endpoint e
           rd,       \* rd[e] = <<index, offset>>: next unread byte of the stream ARRIVING at e
           closed,   \* set of endpoints that have closed
-          broken    \* endpoints whose outgoing stream ends in an unfinished message
-cvars == <<stream, rd, closed, broken>>
+          broken,   \* endpoints whose outgoing stream ends in an unfinished message
+          half      \* endpoints that have closed their outgoing direction only (CloseWrite)
+cvars == <<stream, rd, closed, broken, half>>
 
 CInit == /\ stream = [e \in Ends |-> <<>>] /\ rd = [e \in Ends |-> <<1, 0>>]
-         /\ closed = {} /\ broken = {}
+         /\ closed = {} /\ broken = {} /\ half = {}
 
-WriteOK(e, id, n) == /\ e \notin closed /\ e \notin broken
+WriteOK(e, id, n) == /\ e \notin closed /\ e \notin broken /\ e \notin half
                      /\ stream' = [stream EXCEPT ![e] = Append(@, [id |-> id, n |-> n])]
-                     /\ UNCHANGED <<rd, closed, broken>>
+                     /\ UNCHANGED <<rd, closed, broken, half>>
 \* A failed Write is the one operation that is not atomic: a payload of several records may be partly on the wire (and
 \* read by the peer) before the connection ends under it.  Its effect is either nothing, or the message as the LAST thing
 \* of that stream (no later Write on e succeeds); that it fails must be justified by a Close when it returns (WriteErrReturn).
-WriteErr(e, id, n) == /\ \/ ((e \in closed \/ Peer(e) \in closed \/ e \in broken) /\ UNCHANGED <<stream, broken>>)
-                         \/ (e \notin broken /\ stream' = [stream EXCEPT ![e] = Append(@, [id |-> id, n |-> n])] /\ broken' = broken \cup {e})
-                      /\ UNCHANGED <<rd, closed>>
-WriteErrReturn(e) == e \in closed \/ Peer(e) \in closed
+WriteErr(e, id, n) == /\ \/ ((e \in closed \/ Peer(e) \in closed \/ e \in broken \/ e \in half) /\ UNCHANGED <<stream, broken>>)
+                         \/ (e \notin broken /\ e \notin half /\ stream' = [stream EXCEPT ![e] = Append(@, [id |-> id, n |-> n])] /\ broken' = broken \cup {e})
+                      /\ UNCHANGED <<rd, closed, half>>
+\* (the peer's half close is no reason for a Write on e to fail)
+WriteErrReturn(e) == e \in closed \/ Peer(e) \in closed \/ e \in half
 \* a successful Read returns the segments segs = << [id, from, to], ... >>: exactly the next bytes
 RECURSIVE Walk(_, _, _)
 Walk(s, pos, segs) ==      \* position after consuming segs from stream s starting at pos, or <<0, 0>> if they are not the next bytes
@@ -52,7 +59,11 @@ Walk(s, pos, segs) ==      \* position after consuming segs from stream s starti
 \* (a Read after the endpoint's own Close may still hand out bytes that had already arrived: the sequential object does the same)
 ReadOK(e, segs) == /\ segs # <<>>
                    /\ LET p == Walk(stream[Peer(e)], rd[e], segs) IN p # <<0, 0>> /\ rd' = [rd EXCEPT ![e] = p]
-                   /\ UNCHANGED <<stream, closed, broken>>
-ReadErr(e) == (e \in closed \/ Peer(e) \in closed) /\ UNCHANGED cvars
-CloseOp(e) == closed' = closed \cup {e} /\ UNCHANGED <<stream, rd, broken>>
+                   /\ UNCHANGED <<stream, closed, broken, half>>
+\* end of the arriving stream: at once after a full Close of either end; after the peer's half close only when every
+\* byte it wrote before has been read
+AtEnd(e) == rd[e][1] > Len(stream[Peer(e)])
+ReadErr(e) == (e \in closed \/ Peer(e) \in closed \/ (Peer(e) \in half /\ AtEnd(e))) /\ UNCHANGED cvars
+CloseOp(e) == closed' = closed \cup {e} /\ UNCHANGED <<stream, rd, broken, half>>
+CloseWriteOp(e) == e \notin closed /\ half' = half \cup {e} /\ UNCHANGED <<stream, rd, closed, broken>>
 =============================================================================
